@@ -13,8 +13,9 @@ RULE = ("metamorphic monitor: the library is run on x and on T(x) and the two re
         "annotator renaming (order-reversing and random), category renaming (arbitrary for absolute, order-preserving "
         "for precomputed / ordinal, affine for numerical, character substitution for Levenshtein), time shift, positive "
         "time scale, delta_empty -> c*delta_empty in all components}; x = seeded random continua up to 2x60, 3x15, 4x8, "
-        "5x5 units with pooled dissimilarities; primary family float32-exact (dyadic times < 4096, integer shifts, "
-        "power-of-two / small-integer scales, dyadic c), secondary family generic float32-representable times; for "
+        "5x5 units with pooled dissimilarities; primary family float32-exact (dyadic times < 4096, integer shifts up to the last integers float32 holds "
+        "exactly (2^23 .. 2^24; 2^20 .. 2^21 for a 1/8 grid), power-of-two / small-integer scales, dyadic c; a block of "
+        "heavy-tailed durations (1 .. 1750) under annotator renaming; a block of dense 3x15 continua), secondary family generic float32-representable times; for "
         "delta scaling also compute_gamma under the same numpy seed. non-trivial = continuum with >= 2 units; distinct by "
         "SHA-1 of (continuum, dissimilarity, transformation)")
 ASSUMPTIONS = [
